@@ -94,7 +94,8 @@ def evaluate(payload):
         seen_lines = set()
         for ln_text in r.out.splitlines():
             if ln_text in seen_lines:
-                res["fail"] = ("duplicate-report", f"printed twice: {ln_text}")
+                mm = re.search(r": ([A-Z]+\d+): ", ln_text)
+                res["fail"] = ("duplicate-report:" + (mm.group(1) if mm else "?"), f"printed twice: {ln_text}")
                 break
             seen_lines.add(ln_text)
         for f in [] if res["fail"] else fails:
@@ -170,6 +171,8 @@ def classify(key, sig, detail):
     if sig.startswith("range"):
         _, rule, what = sig.split(":")
         return sig, f"rule {rule} reports a {what} outside the file"
+    if sig.startswith("duplicate-report"):
+        return sig, f"rule {sig.split(':')[1]} prints the same failure line twice for one file"
     return sig, f"scan output violates the contract: {sig}"
 
 
